@@ -289,7 +289,10 @@ def build_resource(case, trace):
     for k in reversed(range(len(hooks))):
         site = 'mhook%d' % k
         on_get = deco[hooks[k]](_hook(hooks[k], site, trace, actions.get(site, 'return'), asyn))(on_get)
-    cls = type('Resource', (object,), {'on_get': on_get})
+    # with a suffix the responder is called on_get_<suffix> (add_route(..., suffix=...)): class-level hooks apply to it
+    # just the same, whatever identifier characters the suffix is made of
+    name = 'on_get' + ('_' + case['suffix'] if case.get('suffix') else '')
+    cls = type('Resource', (object,), {name: on_get})
     if case.get('inherit'):
         # the responder is inherited: class-level hooks are applied to a subclass that defines nothing itself
         cls = type('ChildResource', (cls,), {})
@@ -317,7 +320,10 @@ def build_app(case, trace):
             if not batch:
                 continue
             app.add_middleware(batch[0] if len(batch) == 1 else batch)
-    app.add_route('/thing', build_resource(case, trace))
+    if case.get('suffix'):
+        app.add_route('/thing', build_resource(case, trace), suffix=case['suffix'])
+    else:
+        app.add_route('/thing', build_resource(case, trace))
     sink_action = case['actions'].get('sink', 'return')
     if asyn:
         async def sink(req, resp, **kw):
@@ -453,6 +459,34 @@ class ExhaustiveWsgi(Suite):
         return request_info(case, expected, reached, skipped)
 
 
+class HookSuffixes(Suite):
+    """Class-level and method-level hooks on SUFFIXED responders (on_get_<suffix>, routed with suffix=...): suffixes
+    made of letters, digits, several underscores and non-ASCII letters x {before, after, before+after} at class level
+    x hook action {return, raise HTTPError} x WSGI / ASGI x one middleware component: same reference interpreter."""
+
+    name = 'hook_suffixes'
+    exhaustive = True
+    budget = {'quick': 1, 'thorough': 1}
+
+    def cases(self, tier):
+        mw = [dict(zip(KINDS, ('plain', 'plain', 'plain')))]
+        for suffix in ('items', 'v2', 'item_list', 'by_id_2', 'a_b_c', 'd\u00e9tail', '\u0440\u0435\u0441\u0443\u0440\u0441', 'X'):
+            for stack in ('wsgi', 'asgi'):
+                for ch in (['before'], ['after'], ['before', 'after'], ['after', 'before', 'before']):
+                    for mh in ([], ['before']):
+                        base = {'stack': stack, 'independent': True, 'route': 'resource', 'mw': mw, 'class_hooks': ch,
+                                'method_hooks': mh, 'app_handler': None, 'actions': {}, 'suffix': suffix}
+                        yield base
+                        yield dict(base, actions={'chook0': 'http_error'})
+                        yield dict(base, inherit=True)
+
+    def run(self, case):
+        expected, reached, skipped = run_request_case(case)
+        info = request_info(case, expected, reached, skipped)
+        return Info(True, info.labels + ('suffix:' + ('ascii_alnum' if case['suffix'].isascii() and case['suffix'].isalnum()
+                                                      else 'underscores' if case['suffix'].isascii() else 'non_ascii'),))
+
+
 # ----------------------------------------------------------------- suite 2: random stacks
 
 
@@ -494,6 +528,7 @@ def _stack_case(draw):
         'batches': draw(st.one_of(st.just([]), st.just([]), st.lists(st.integers(0, 4), min_size=1, max_size=3))),
         'proxied': draw(st.one_of(st.just([]), st.just([]), st.lists(st.integers(0, 3), max_size=2, unique=True))),
         'inherit': draw(st.sampled_from([False, False, True])),
+        'suffix': draw(st.sampled_from([None, None, None, 'items', 'item_list', 'by_id2', 'd\u00e9tail'])),
     }
 
 
@@ -695,5 +730,5 @@ class LifespanRandom(Suite):
         return run_lifespan_case(case)
 
 
-SUITES = [ExhaustiveWsgi(), RandomStacks(), LifespanEnum(), LifespanRandom()]
+SUITES = [ExhaustiveWsgi(), HookSuffixes(), RandomStacks(), LifespanEnum(), LifespanRandom()]
 KNOWN = {}
